@@ -2046,6 +2046,294 @@ def c06_parse_program_spec(txt):
     return table[txt]
 
 
+# ---------------------------------------------------------------------------------------------------------
+# C19: kernel framing / signing / replies on real objects
+# ---------------------------------------------------------------------------------------------------------
+class _FragReader:
+    """StreamReader stand-in: serves the byte stream in the given fragment sizes (then byte by byte)."""
+
+    def __init__(self, data, frags):
+        self.data, self.pos, self.frags = bytes(data), 0, list(frags)
+
+    async def read(self, n):
+        if self.pos >= len(self.data):
+            return b""
+        k = self.frags.pop(0) if self.frags else 1
+        k = max(1, min(k, n, len(self.data) - self.pos))
+        out = self.data[self.pos:self.pos + k]
+        self.pos += k
+        return out
+
+
+class _CapWriter:
+    def __init__(self):
+        self.buf = bytearray()
+
+    def write(self, b):
+        self.buf += bytes(b)
+
+    async def drain(self):
+        pass
+
+    def close(self):
+        pass
+
+
+def _compositions(n):
+    """all ways to cut n bytes into fragments"""
+    if n == 0:
+        yield []
+        return
+    for mask in range(1 << (n - 1)):
+        out, cur = [], 1
+        for i in range(n - 1):
+            if mask >> i & 1:
+                out.append(cur)
+                cur = 1
+            else:
+                cur += 1
+        out.append(cur)
+        yield out
+
+
+async def c19_framing_bounded(w):
+    """Bounded stand-in on real bytes: frame lists with lengths around 0/255/256/65535 (+ random contents) written by the real
+    send routines and read back by the real receive routines under exhaustive (small messages) or random fragmentation;
+    bit-flipped / wrongly keyed requests; request sequences against a real Kernel."""
+    import random, hmac, hashlib, json as js
+    from custom_components.pyscript.jupyter_kernel import ZmqSocket, Kernel, DELIM
+    rng = random.Random(1919 + int(w.get("seed", 0)))
+    failures, cases = [], 0
+
+    def fail(sig, **kw):
+        if len(failures) < 3:
+            failures.append({"signature": sig, **{k: (v if isinstance(v, (int, str, list, type(None))) else repr(v)[:300]) for k, v in kw.items()}})
+
+    async def roundtrip(parts, frags, single=False, with_cmd=False):
+        wr = _CapWriter()
+        tx = ZmqSocket(None, wr, "ROUTER")
+        if with_cmd:
+            await tx.send_cmd("READY", [["Socket-Type", "ROUTER"], ["Identity", ""]])
+        if single:
+            await tx.send(parts[0])
+        else:
+            await tx.send_multipart(parts)
+        marker = b"\x00\x03END"       # a following message must stay unread
+        rx = ZmqSocket(_FragReader(bytes(wr.buf) + marker, frags), None, "ROUTER")
+        try:
+            got = await asyncio.wait_for(rx.recv() if single else rx.recv_multipart(), timeout=20)
+        except BaseException as e:  # noqa
+            return "exception:" + repr(e), False, len(wr.buf)
+        rest = rx.reader.data[rx.reader.pos:]
+        return got, rest == marker, len(wr.buf)
+
+    lens = [0, 1, 2, 254, 255, 256, 257, 65535, 65536]
+    small = [0, 1, 2]
+    # exhaustive fragmentation for small messages
+    for n in (1, 2, 3):
+        for combo in __import__("itertools").product(small, repeat=n):
+            parts = [bytes(rng.randrange(256) for _ in range(k)) for k in combo]
+            total = sum(combo) + 2 * n
+            for frags in _compositions(total + 5):
+                got, clean, _ = await roundtrip(parts, frags)
+                cases += 1
+                if got != parts or not clean:
+                    fail(f"framing:{combo}:{frags}", lengths=list(combo), fragments=frags, observed=got, expected=parts)
+    # boundary lengths, random fragmentation
+    n_rand = 60 if w.get("quick") else 400
+    for _ in range(n_rand):
+        n = rng.choice([1, 1, 2, 3, 4, 7])
+        combo = [rng.choice(lens) for _i in range(n)]
+        parts = [rng.randbytes(k) for k in combo]
+        total = sum(combo) + 9 * n
+        for frags in ([total + 20], [], [rng.choice([1, 2, 3, 7, 100, 255, 256, 4096]) for _k in range(200)]):
+            single = n == 1 and rng.random() < 0.5
+            with_cmd = rng.random() < 0.3
+            got, clean, _ = await roundtrip(parts, list(frags), single=single, with_cmd=with_cmd)
+            cases += 1
+            want = parts[0] if single else parts
+            if got != want or not clean:
+                fail(f"framing:{combo}:{'single' if single else 'multi'}", lengths=combo, fragments=frags[:10],
+                     observed=(got if isinstance(got, str) else [len(g) for g in (got if isinstance(got, list) else [got])]))
+    # ---- signing and replies
+    hass = await boot_full()
+    hass.states.async_all = lambda: []
+    hass.states.get = lambda name: None
+    from custom_components.pyscript.eval import AstEval
+    from custom_components.pyscript.function import Function
+    from custom_components.pyscript.global_ctx import GlobalContext, GlobalContextMgr
+    key = "secret-key-c19"
+    gctx = GlobalContext("jupyter_c19", global_sym_table={"__name__": "jupyter_c19"}, manager=GlobalContextMgr)
+    GlobalContextMgr.set("jupyter_c19", gctx)
+    actx = AstEval("jupyter_c19", gctx)
+    Function.install_ast_funcs(actx)
+    kernel = Kernel({"key": key, "signature_scheme": "hmac-sha256"}, actx, gctx, "jupyter_c19")
+    hk = asyncio.get_running_loop().create_task(kernel.housekeep_run())
+    evals = []
+    orig_eval = actx.eval
+
+    async def counted_eval(*a, **k):
+        evals.append(1)
+        return await orig_eval(*a, **k)
+    actx.eval = counted_eval
+
+    def sign(frames, k=key):
+        h = hmac.new(k.encode(), digestmod=hashlib.sha256)
+        for f in frames:
+            h.update(f)
+        return h.hexdigest().encode()
+
+    def request(msg_type, content, ids=(b"client-1", b"route-2"), k=key, n=[0]):
+        n[0] += 1
+        header = {"msg_id": f"m{n[0]}", "username": "u", "session": "s", "msg_type": msg_type, "version": "5.3", "date": "d"}
+        frames = [js.dumps(header).encode(), b"{}", b"{}", js.dumps(content).encode()]
+        return header, list(ids) + [DELIM, sign(frames, k)] + frames
+
+    async def handle(wire):
+        shell_w, pub_w = _CapWriter(), _CapWriter()
+        shell, pub = ZmqSocket(None, shell_w, "ROUTER"), ZmqSocket(None, pub_w, "PUB")
+        kernel.iopub_socket = {pub}
+        err = None
+        try:
+            await kernel.shell_handler(shell, wire)
+        except Exception as e:  # noqa
+            err = e
+        await settle(20)
+
+        async def decode(buf):
+            rx = ZmqSocket(_FragReader(bytes(buf), [len(buf) + 1] * 1000), None, "ROUTER")
+            out = []
+            while rx.reader.pos < len(rx.reader.data):
+                out.append(await rx.recv_multipart())
+            return out
+        return await decode(shell_w.buf), await decode(pub_w.buf), err
+
+    def parse(wire_msg):
+        i = wire_msg.index(DELIM)
+        frames = wire_msg[i + 2:]
+        return {"ids": wire_msg[:i], "sig_ok": wire_msg[i + 1] == sign(frames), "header": js.loads(frames[0]), "parent": js.loads(frames[1]),
+                "metadata": js.loads(frames[2]), "content": js.loads(frames[3])}
+    cells = [("1+1", "2"), ("x = 3", None), ("x * 2", "6"), ("1/0", "error"), ("x", "3")]
+    count = kernel.execution_count
+    script = [("kernel_info_request", {}, "kernel_info_reply")]
+    for code, _ in cells:
+        script.append(("execute_request", {"code": code, "silent": False, "store_history": True}, "execute_reply"))
+    script += [("is_complete_request", {"code": "if x:"}, "is_complete_reply"), ("complete_request", {"code": "x", "cursor_pos": 1}, "complete_reply")]
+    ci = 0
+    for msg_type, content, reply_type in script:
+        header, wire = request(msg_type, content)
+        n_ev = len(evals)
+        shell_msgs, pub_msgs, err = await handle(wire)
+        cases += 1
+        sm, pm = [parse(m) for m in shell_msgs], [parse(m) for m in pub_msgs]
+        ok = err is None and len(sm) == 1 and sm[0]["sig_ok"] and sm[0]["ids"] == [b"client-1", b"route-2"] and sm[0]["parent"] == header \
+            and sm[0]["header"]["msg_type"] == reply_type and len(pm) >= 2 and all(m["sig_ok"] and m["parent"] == header for m in pm) \
+            and pm[0]["header"]["msg_type"] == "status" and pm[0]["content"] == {"execution_state": "busy"} \
+            and pm[-1]["header"]["msg_type"] == "status" and pm[-1]["content"] == {"execution_state": "idle"} \
+            and sum(1 for m in pm if m["header"]["msg_type"] == "status") == 2
+        if msg_type == "execute_request":
+            code, want = cells[ci]
+            ci += 1
+            ok = ok and len(evals) == n_ev + 1 and sm[0]["content"]["execution_count"] == count
+            res = [m for m in pm if m["header"]["msg_type"] == "execute_result"]
+            errs = [m for m in pm if m["header"]["msg_type"] == "error"]
+            if want == "error":
+                ok = ok and sm[0]["content"]["status"] == "error" and len(errs) == 1 and not res and errs[0]["content"]["ename"] == "ZeroDivisionError"
+            elif want is None:
+                ok = ok and sm[0]["content"]["status"] == "ok" and not res and not errs
+            else:
+                ok = ok and sm[0]["content"]["status"] == "ok" and len(res) == 1 and res[0]["content"]["data"]["text/plain"] == want and res[0]["content"]["execution_count"] == count
+            count += 1
+        if not ok:
+            fail(f"reply:{msg_type}:{content}", request=msg_type, content=str(content), error=repr(err), shell=[(m['header']['msg_type'], m['sig_ok'], m['ids']) for m in sm],
+                 iopub=[(m['header']['msg_type'], m['content']) for m in pm][:6])
+    # unauthenticated: wrong key, and every single-bit flip of the signature / a sample of bit flips in the frames
+    header, wire = request("execute_request", {"code": "hacked = 1", "silent": False})
+    bad = [request("execute_request", {"code": "hacked = 1"}, k="other-key")[1]]
+    sig_i = wire.index(DELIM) + 1
+    for byte_i in range(len(wire[sig_i])):
+        for bit in range(8):
+            m = list(wire)
+            b = bytearray(m[sig_i])
+            b[byte_i] ^= 1 << bit
+            m[sig_i] = bytes(b)
+            bad.append(m)
+    for fi in range(sig_i + 1, len(wire)):
+        for _ in range(12):
+            m = list(wire)
+            b = bytearray(m[fi])
+            if not b:
+                continue
+            b[rng.randrange(len(b))] ^= 1 << rng.randrange(8)
+            m[fi] = bytes(b)
+            bad.append(m)
+    for m in bad:
+        n_ev = len(evals)
+        shell_msgs, pub_msgs, err = await handle(m)
+        cases += 1
+        if shell_msgs or pub_msgs or len(evals) != n_ev or "hacked" in gctx.global_sym_table:
+            fail("unauthenticated-request-processed", shell=len(shell_msgs), iopub=len(pub_msgs), evaluated=len(evals) - n_ev, error=repr(err))
+    hk.cancel()
+    await shutdown()
+    return {"unit": "ZmqSocket framing, Kernel.deserialize_wire_msg / send / shell_handler on real bytes", "method": "real objects over in-memory streams",
+            "bound": f"exhaustive fragmentation for <= 3 frames of <= 2 bytes; {n_rand} random frame lists with lengths in {lens}; {len(script)} requests; {len(bad)} corrupted requests",
+            "cases": cases, "failures": failures, "reproduced": bool(failures)}
+
+
+async def c19_interleaved_parent(w):
+    """Two shell connections: request A (a cell that awaits) is suspended while request B is handled; every message caused by A -
+    in particular its closing idle status - must carry A's header as parent."""
+    import hmac, hashlib, json as js
+    from custom_components.pyscript.jupyter_kernel import ZmqSocket, Kernel, DELIM
+    from custom_components.pyscript.eval import AstEval
+    from custom_components.pyscript.function import Function
+    from custom_components.pyscript.global_ctx import GlobalContext, GlobalContextMgr
+    hass = await boot_full()
+    key = "k19"
+    gctx = GlobalContext("jupyter_c19b", global_sym_table={"__name__": "jupyter_c19b"}, manager=GlobalContextMgr)
+    GlobalContextMgr.set("jupyter_c19b", gctx)
+    actx = AstEval("jupyter_c19b", gctx)
+    Function.install_ast_funcs(actx)
+    kernel = Kernel({"key": key, "signature_scheme": "hmac-sha256"}, actx, gctx, "jupyter_c19b")
+    hk = asyncio.get_running_loop().create_task(kernel.housekeep_run())
+    sent = []
+
+    class Cap:
+        def __init__(self, name):
+            self.name = name
+
+        async def send_multipart(self, parts):
+            i = parts.index(DELIM)
+            sent.append((self.name, js.loads(parts[i + 2])["msg_type"], js.loads(parts[i + 3]).get("msg_id"), js.loads(parts[i + 5])))
+    kernel.iopub_socket = {Cap("iopub")}
+
+    def request(mid, msg_type, content):
+        header = {"msg_id": mid, "username": "u", "session": "s", "msg_type": msg_type, "version": "5.3", "date": "d"}
+        frames = [js.dumps(header).encode(), b"{}", b"{}", js.dumps(content).encode()]
+        h = hmac.new(key.encode(), digestmod=hashlib.sha256)
+        for f in frames:
+            h.update(f)
+        return [b"id", DELIM, h.hexdigest().encode()] + frames
+    gate = asyncio.Event()
+
+    async def wait_gate():
+        await gate.wait()
+        return 5
+    gctx.global_sym_table["wait_gate"] = wait_gate
+    ta = asyncio.get_running_loop().create_task(kernel.shell_handler(Cap("shellA"), request("A", "execute_request", {"code": "wait_gate()", "silent": False})))
+    await settle(30)
+    await kernel.shell_handler(Cap("shellB"), request("B", "kernel_info_request", {}))
+    gate.set()
+    await asyncio.wait_for(ta, 10)
+    await settle(20)
+    hk.cancel()
+    await shutdown()
+    idle = [(n, parent) for (n, t, parent, c) in sent if t == "status" and c.get("execution_state") == "idle"]
+    want = sorted(["A", "B"])
+    got = sorted(p for _, p in idle)
+    return {"reproduced": got != want, "observed": {"idle_status_parents": got, "all": [(n, t, p) for n, t, p, c in sent]}, "expected": {"idle_status_parents": want}}
+
+
 SCENARIOS = {k: v for k, v in list(globals().items()) if asyncio.iscoroutinefunction(v) and k[0] == "c"}
 
 if __name__ == "__main__":
